@@ -525,11 +525,14 @@ class Ctx(object):
         import threading
         mod = 'PM.' + rel[len('theories/'):-2].replace('/', '.')
         box = {'mod': mod}
+        flags = list(COQFLAGS)
 
         def job():
             t0 = time.time()
             try:
-                p = subprocess.run(['coqchk', '-silent', '-o', '-R', 'theories', 'PM', mod], cwd=COQ,
+                # the same load paths the file was compiled with (C12's property file imports the regenerated
+                # PMGen.Gen_units; with -R theories PM alone coqchk cannot load it)
+                p = subprocess.run(['coqchk', '-silent', '-o'] + flags + [mod], cwd=COQ,
                                    stdout=subprocess.PIPE, stderr=subprocess.STDOUT, text=True, timeout=2400)
                 box['rc'], box['out'] = p.returncode, p.stdout
             except subprocess.TimeoutExpired:
